@@ -1,14 +1,3 @@
 #!/bin/sh
 # MANIFEST.setup_cmd: build the framework from files on disk only (offline).
-set -e
-cd "$(dirname "$0")"
-export CARGO_NET_OFFLINE=true
-cp -n /repo/Cargo.lock harness/Cargo.lock 2>/dev/null || true
-(cd harness && cargo build --offline -q)
-mkdir -p .work/setup/generated lean/SurfModel/Generated evidence replays
-# regenerate the tables the Lean project imports, then build everything once
-if [ -s generated_tables.txt ]; then
-  ./harness/target/debug/verif-harness tables .work/setup/generated $(cat generated_tables.txt)
-  for t in $(cat generated_tables.txt); do cp .work/setup/generated/$t.lean lean/SurfModel/Generated/$t.lean; done
-fi
-(cd lean && lake build)
+cd "$(dirname "$0")" && exec ./check --setup
